@@ -83,7 +83,10 @@ theorem Mono.catchNotDefined {m1 m2 : M α} {h1 h2 : Stop → M α} (hm : Mono m
   intro e
   split
   · split
-    · exact hh _
+    · refine Mono.bind (Mono.refl _) fun s => ?_
+      split
+      · exact hh _
+      · exact Mono.refl _
     · exact Mono.refl _
   · exact Mono.refl _
 
